@@ -15,6 +15,8 @@ EXPLANATION = B.MIXED + (
 def run(rep, tier):
     kernels.oracle_self_check(rep)
     kernels.run_generators(rep, ["apply_operator_matrix", "trace_out_matrix"])
+    from vf.pyvc import tensors
+    tensors.run_tensor_contracts(rep, ["C09"])
     from vf import lemmas
     lemmas.lemma_obligations(rep, ["complete_set_preserves_trace"])
     B.run_b(rep, morecells.povm_cells(tier, common.seed()), ["C09"], explore=True, tier=tier)
